@@ -63,7 +63,7 @@ Narrow1   == {Ok({Z("any", "any", Both)}, 1), Ok({Z("t1", "c1", Both)}, 2), Ok({
 
 ---------------------------------------------------------------------------
 (* HTTP *)
-AllHttp == [port : {"http", "https"}, cert : {"none", "unsigned", "signed"}, route : {"ping", "pub"}]
+AllHttp == [port : {"http", "https"}, cert : {"none", "unsigned", "signed"}, route : {"ping", "pub", "pprof", "unknown", "badmethod"}]
 
 ---------------------------------------------------------------------------
 NoHttp == {}
